@@ -373,6 +373,9 @@ def _collect_extensions(  # noqa: C901
                     )
                 else:
                     continue
+            elif name in type_defs:
+                # Same rule as _collect_definitions (build_schema).
+                raise ExtensionError("Duplicate type %s" % name, [definition])
             else:
                 type_defs[name] = definition
 
@@ -387,6 +390,10 @@ def _collect_extensions(  # noqa: C901
                     )
                 else:
                     continue
+            elif name in directive_defs:
+                raise ExtensionError(
+                    "Duplicate directive @%s" % name, [definition]
+                )
             else:
                 directive_defs[name] = definition
 
